@@ -31,7 +31,8 @@ def digits(v, w):
 
 
 def mk(pid, kinds, strict, source='string', perm=None, widths=None, T=60, sym_ids=False, sort_objects=False, tag='',
-       mids=None, may_fail=True, rc_mid=None, sym_rc=None, rc_completed=False, merge_twice=False):
+       mids=None, may_fail=True, rc_mid=None, sym_rc=None, rc_completed=False, merge_twice=False, ncs_ids=None,
+       same_basename=False):
     """sym_ids: message IDs are symbolic digit strings of the given widths (used where no message fails:
     a failing merge formats its message ID into the error text, which realises the integer and turns
     one path into one path per value); otherwise they are the concrete ``mids``."""
@@ -47,6 +48,8 @@ def mk(pid, kinds, strict, source='string', perm=None, widths=None, T=60, sym_id
         P['mids'] = mids or ['20', '3', '100', '7'][:k]
     if rc_mid:
         P['rc_mid'] = rc_mid
+    P['ncs_ids'] = ncs_ids
+    P['same_basename'] = same_basename
     P['rc_completed'] = rc_completed
     P['merge_twice'] = merge_twice
     if sym_rc:
@@ -81,6 +84,10 @@ def mk(pid, kinds, strict, source='string', perm=None, widths=None, T=60, sym_id
         cid += '/roCreate-id-' + rc_mid
     if sym_rc:
         cid += '/roCreate-symid-%d' % sym_rc
+    if ncs_ids:
+        cid += '/ncs-' + '-'.join(ncs_ids)
+    if same_basename:
+        cid += '/same-basename'
     if rc_completed:
         cid += '/roCreate-already-completed'
     if merge_twice:
